@@ -147,6 +147,115 @@ def path_exists(cfg, src, dst, avoid_blocks=(), avoid_edges=()):
     return False
 
 
+def reach_with_state(fn, cfg, targets, avoid_blocks=(), blocking=None, cap=3, budget=20000):
+    """path-sensitive reachability over (block, state): the state holds the literal value of boolean locals and the small
+    concrete value (0..cap) of integer locals that are only initialised with a literal and stepped by ++/--/+= literal.  A branch
+    on a tracked flag, or a comparison of a tracked counter with a literal, is followed only in the direction its state allows;
+    every other branch (data tests) is free.  An edge for which blocking(facts) is true is not taken.
+    Returns a list of block ids entry -> a block of `targets` avoiding `avoid_blocks`, or None"""
+    TOP = "?"
+
+    def apply(blk, env):
+        env = dict(env)
+        for e in cfg.blocks[blk]["el"]:
+            n = fn.nodes.get(e)
+            if n is None:
+                continue
+            k = n["k"]
+            if k == "DeclStmt":
+                for d in n["decls"]:
+                    ini = strip(d["init"]) if d.get("init") is not None else None
+                    ty = (d.get("ty") or "").replace("const ", "")
+                    if ty == "bool":
+                        env[d["id"]] = bool(ini["val"]) if ini is not None and ini["k"] == "CXXBoolLiteralExpr" else TOP
+                    elif ty in ("size_t", "unsigned int", "int", "unsigned long", "long", "std::size_t"):
+                        while ini is not None and ini["k"] in ("CXXConstructExpr", "CXXFunctionalCastExpr", "CStyleCastExpr", "CXXStaticCastExpr") and kids(ini):
+                            ini = strip(kids(ini)[0])
+                        env[d["id"]] = int(ini["val"]) if ini is not None and ini["k"] == "IntegerLiteral" and int(ini["val"]) <= cap else TOP
+            elif k in ("BinaryOperator", "CompoundAssignOperator") and n.get("op") in ("=", "+=", "-="):
+                l = strip(kids(n)[0])
+                if l["k"] == "DeclRefExpr" and l["decl"]["id"] in env:
+                    r = strip(kids(n)[1])
+                    cur = env[l["decl"]["id"]]
+                    if n["op"] == "=" and r["k"] == "CXXBoolLiteralExpr":
+                        env[l["decl"]["id"]] = bool(r["val"])
+                    elif n["op"] == "=" and r["k"] == "IntegerLiteral" and int(r["val"]) <= cap:
+                        env[l["decl"]["id"]] = int(r["val"])
+                    elif n["op"] in ("+=", "-=") and r["k"] == "IntegerLiteral" and isinstance(cur, int) and not isinstance(cur, bool):
+                        v = cur + int(r["val"]) * (1 if n["op"] == "+=" else -1)
+                        env[l["decl"]["id"]] = v if 0 <= v <= cap else TOP
+                    else:
+                        env[l["decl"]["id"]] = TOP
+            elif k == "UnaryOperator" and n.get("op") in ("++", "--"):
+                l = strip(kids(n)[0])
+                if l["k"] == "DeclRefExpr" and l["decl"]["id"] in env:
+                    cur = env[l["decl"]["id"]]
+                    if isinstance(cur, int) and not isinstance(cur, bool):
+                        v = cur + (1 if n["op"] == "++" else -1)
+                        env[l["decl"]["id"]] = v if 0 <= v <= cap else TOP
+                    else:
+                        env[l["decl"]["id"]] = TOP
+            elif is_call(n):
+                # a tracked local handed to a callee by non-const reference is no longer known
+                pt = n["callee"].get("ptypes") or []
+                for idx, a in enumerate(fn.args(n)):
+                    sa = strip(a)
+                    if sa is not None and sa["k"] == "DeclRefExpr" and sa["decl"]["id"] in env and idx < len(pt) and pt[idx].endswith("&") and not pt[idx].startswith("const "):
+                        env[sa["decl"]["id"]] = TOP
+        return env
+
+    def allowed(a, b, env):
+        facts_ = edge_facts(cfg, a, b)
+        if blocking is not None and blocking(facts_):
+            return False
+        for t, tr, nd in facts_:
+            nd = strip(nd)
+            if nd is None:
+                continue
+            if nd["k"] == "DeclRefExpr" and isinstance(env.get(nd["decl"]["id"]), bool) and env[nd["decl"]["id"]] != tr:
+                return False
+            if nd["k"] == "BinaryOperator" and nd.get("op") in ("==", "!=", "<", ">", "<=", ">="):
+                l_, r_ = strip(kids(nd)[0]), strip(kids(nd)[1])
+                op = nd["op"]
+                if r_["k"] == "DeclRefExpr" and l_["k"] == "IntegerLiteral":
+                    l_, r_ = r_, l_
+                    op = {"<": ">", ">": "<", "<=": ">=", ">=": "<="}.get(op, op)
+                if l_["k"] == "DeclRefExpr" and r_["k"] == "IntegerLiteral":
+                    cur = env.get(l_["decl"]["id"])
+                    if isinstance(cur, int) and not isinstance(cur, bool):
+                        c_ = int(r_["val"])
+                        val = {"==": cur == c_, "!=": cur != c_, "<": cur < c_, ">": cur > c_, "<=": cur <= c_, ">=": cur >= c_}[op]
+                        if val != tr:
+                            return False
+        return True
+
+    targets = set(targets)
+    start = (cfg.entry, ())
+    prev = {start: None}
+    q = [start]
+    while q and budget > 0:
+        budget -= 1
+        st = q.pop(0)
+        b, envt = st
+        if b in targets:
+            path = []
+            while st is not None:
+                path.append(st[0])
+                st = prev[st]
+            return path[::-1]
+        env = apply(b, dict(envt))
+        for s_ in cfg.succ[b]:
+            if s_ in avoid_blocks and s_ not in targets:
+                continue
+            if not allowed(b, s_, env):
+                continue
+            nst = (s_, tuple(sorted(env.items(), key=lambda kv: kv[0])))
+            if nst not in prev:
+                prev[nst] = st
+                q.append(nst)
+    return None
+
+
 def blocks_with(cfg, pred):
     """blocks containing a CFG element satisfying pred(node)"""
     out = set()
